@@ -104,7 +104,7 @@ class Report:
         for k in mine:
             if k["key"] not in fired:
                 print("  note: known finding %s no longer fires on this tree (stale entry)" % k["key"])
-        evdir = os.path.join(VERIF, "evidence")
+        evdir = os.environ.get("VERIF_EVIDENCE_DIR") or os.path.join(VERIF, "evidence")
         os.makedirs(evdir, exist_ok=True)
         wall = time.time() - self.t0
         cov = {
